@@ -88,7 +88,7 @@ def run(c):
     if c.replay:
         batch([cs for cs in vlib.read_replay(c.replay) if cs[1]])
     else:
-        first = gen.corpus(ok19) + gen.tuple_exhaustive() + gen.il_cases(c.rng, 20 if not thorough else 200) + gen.thr_cases(c.rng, 3 if not thorough else 30) + gen.tp_cases(c.rng, 3 if not thorough else 30) + gen.mix_cases(c.rng, 3 if not thorough else 30)
+        first = gen.corpus(ok19) + gen.tuple_exhaustive() + gen.il_cases(c.rng, 20 if not thorough else 200) + gen.thr_cases(c.rng, 3 if not thorough else 30) + gen.tp_cases(c.rng, 3 if not thorough else 30) + gen.mix_cases(c.rng, 3 if not thorough else 30) + gen.err_cases(c.rng, 3 if not thorough else 30)
         n = 1500 if not thorough else 15000
         types = [t for t in gen.KINDS for _ in range(1 if t in ("tup", "umem", "box") else 3)]
         for i in range(n):
